@@ -180,7 +180,7 @@ def w2b(ctx, rep):
     except Exception:
         mx = None
     hv = F.body(P + "huffman_helper::is_valid_huffman_code_lengths")
-    rej = any(hv.term(sb)["k"] == "switch" and re.match(r"^Ge\(var\(length\), K%s\)$" % mx, flow.describe(hv, hv.term(sb)["d"], names=True) or "") for sb in hv.normal_blocks())
+    rej = any(hv.term(sb)["k"] == "switch" and (mx is not None and (flow.describe(hv, hv.term(sb)["d"], names=True) or "") in ("Ge(var(length), K%d)" % mx, "Gt(var(length), K%d)" % (mx - 1))) for sb in hv.normal_blocks())
     ok_sum = validated and mx is not None and mx - 1 <= 15 and rej
     rep.add("W2", "summary:huffman-code-lengths<=15", ok_sum, "", "is_valid_huffman_code_lengths rejects `length >= %s` (%s) and dominates tree construction (%s)" % (mx, rej, validated))
     if ok_sum:
@@ -191,7 +191,7 @@ def w2b(ctx, rep):
     fl = [flow.describe(fw, fw.term(sb)["d"], names=True) for sb in fw.normal_blocks() if fw.term(sb)["k"] == "switch"]
     wr = F.body(P + "bit_writer::BitWriter::write")
     calls_flush = [bb for bb, t in wr.calls() if strip_generics(callee_def(t)).endswith("flush_whole_bytes")]
-    rep.add("W2", "summary:at-most-7-bits-pending", fl == ["Ge(var(self).bits_in, K8)"] and len(calls_flush) == 1, "%s:%s" % (fw.file, fw.line),
+    rep.add("W2", "summary:at-most-7-bits-pending", fl in (["Ge(var(self).bits_in, K8)"], ["Gt(var(self).bits_in, K7)"]) and len(calls_flush) == 1, "%s:%s" % (fw.file, fw.line),
             "flush_whole_bytes drains while `%s`; write() ends with it" % fl)
     n = 0
     for name, fb in sorted(F.bodies.items()):
@@ -327,9 +327,10 @@ def w4(F, rep):
     # both sides walk the code-length alphabet in TREE_CODE_ORDER_TABLE order and share the adjustment function
     for fn, nm in ((WN, "write"), (RN, "read")):
         b = F.body(fn)
-        uses_order = any("const:preflate_constants::TREE_CODE_ORDER_TABLE" in flow.describe(b, {"l": s["p"]["l"], "p": []}, names=False)
-                         for bb in b.normal_blocks() for s in b.stmts(bb) if s["k"] == "assign" and not s["p"]["p"] and s["r"]["k"] == "use" and op_place(s["r"]["op"]) is not None
-                         and any(isinstance(e, dict) and "i" in e for e in op_place(s["r"]["op"])["p"]))
+        # the table may be indexed (`TABLE[i]`) or iterated (`TABLE.iter().take(n)`): either way the function refers to it
+        import json as _json
+        uses_order = any("preflate_constants::TREE_CODE_ORDER_TABLE" in _json.dumps(b.blocks[bb]) for bb in b.normal_blocks()) or \
+            "preflate_constants::TREE_CODE_ORDER_TABLE" in _json.dumps(b.j.get("promoted") or [])      # `&TABLE` is a promoted constant
         adj = _calls_named(b, "get_tree_code_adjustment")
         rep.add("W4", "uses-code-order-table:" + nm, uses_order, "%s:%s" % (b.file, b.line), "indexes through TREE_CODE_ORDER_TABLE")
         rep.add("W4", "uses-shared-adjustment:" + nm, len(adj) == 1, "%s:%s" % (b.file, b.line), "repeat-code (subtract, bits) come from get_tree_code_adjustment")
